@@ -9,7 +9,7 @@ from .. import contracts, gen, ref
 from ..core import FAILED
 
 DECIDING = ["contract:partial_trace", "O2:compose", "O2:product", "O2:trace-preserved", "O2:linear", "O3:scalar-dim", "O3:defaults",
-            "O4:cvxpy-value"]
+            "O4:cvxpy-value", "H1:repeat-call"]
 RULE = ("cases = (local dims in 1..4, n<=5, N<=144) x every non-empty subset S (all listing orders for |S|<=3, n<=4) x dtype; "
         "entries unique ids; a signature is (monitor, n, |S|, non-uniform dims?) and is non-trivial when S is a proper subset")
 CASE_TIMEOUT = {"quick": 240, "thorough": 3000}
@@ -38,6 +38,8 @@ def cases(tier):
         out.append(("forms", r))
     for r in range(40 if tier == "quick" else 4000):
         out.append(("cvx", r))
+    for r in range(40 if tier == "quick" else 3000):
+        out.append(("repeat", r))
     if tier == "thorough":
         out.append(("suite", 0))
     return out
@@ -193,3 +195,24 @@ def _run_suite(ctx, spec, rng):
     from ..suiterun import run_suite_under_contract
 
     run_suite_under_contract(ctx, ['partial_trace', 'permute_systems'], "suite-under-contract")
+
+
+def _run_repeat(ctx, spec, rng):
+    """History monitor: the same argument objects (sys and dim given as ndarrays) used for two consecutive calls."""
+    from toqito.channels import partial_trace
+
+    from ..core import repeat_call
+
+    n = int(rng.integers(2, 5))
+    d = gen.dims(rng, n, 1, 3, max_total=64)
+    big = int(np.prod(d))
+    x = gen.unique_ids((big, big), "ic"[spec[1] % 2])
+    k = int(rng.integers(1, n + 1))
+    s = [int(v) for v in rng.permutation(n)[:k]]
+    sys_arg = list(s) if spec[1] % 2 else s  # lists are the documented form; the object is reused either way
+    dim_arr = np.array(d)
+    res = repeat_call(ctx, "H1:repeat-call", partial_trace, [x, sys_arg, dim_arr], ["input_mat", "sys", "dim"], sig=(n, k))
+    if res is not FAILED:
+        ctx.check("O1:shape", np.array_equal(res, ref.partial_trace(x, s, d)) if x.dtype.kind == "i" else np.allclose(res, ref.partial_trace(x, s, d)), sig=("repeat", n), mech="partial_trace:contraction[ndarray-dim]",
+                  detail={"d": d, "s": s})
+    ctx.sample("H1:repeat-call", {"dims": d, "sys": s})
